@@ -105,6 +105,29 @@ class Source:
                 s += 1
         return Region(self, s, e)
 
+    def let_init(self, fn_region, let_prefix):
+        """Expression slice: the initialiser of the `let` statement starting with `let_prefix` (e.g. `let x =`), unique
+        inside fn_region: everything after the `=` up to the `;` at nesting depth 0."""
+        a = self._unique(let_prefix, fn_region.start, fn_region.end) + len(let_prefix)
+        t, depth, i = self.text, 0, a
+        while i < fn_region.end:
+            c = t[i]
+            if c in "([{":
+                depth += 1
+            elif c in ")]}":
+                if depth == 0:
+                    raise LostAnchor("statement %r in %s does not end with `;`" % (let_prefix, self.rel))
+                depth -= 1
+            elif c == ";" and depth == 0:
+                break
+            i += 1
+        s, e = a, i
+        while t[s] in " \t\n":
+            s += 1
+        while t[e - 1] in " \t\n":
+            e -= 1
+        return Region(self, s, e)
+
     def if_else(self, fn_region, first):
         """Region of the whole `if .. { } else { }` chain whose head contains `first` (unique in fn_region)."""
         a = self._unique(first, fn_region.start, fn_region.end)
